@@ -513,12 +513,19 @@ fn reference(chip: Chip, boost: bool, cell: &RefCell<Chip126>, op: &Op, pa: Opti
             let (symb, rtc) = match k {
                 RxKind::Single(n) => ((*n).min(255) as u8, 0u32),
                 RxKind::Continuous => (0u8, 0x00FF_FFFF),
-                RxKind::Duty(..) => return RefRes::Skip("ref_inexpressible:rx_duty_cycle_not_in_bindings"),
+                RxKind::Duty(..) => (0u8, 0u32),
             };
             chk(ctx.stop_timer_on_preamble(true));
             chk(ctx.set_lora_symb_nb_timeout(symb));
             chk(ctx.cfg_rx_boosted(boost));
-            chk(ctx.set_rx_with_timeout_in_rtc_step(rtc));
+            if let RxKind::Duty(a, b) = k {
+                // the bindings leave out sx126x_set_rx_duty_cycle: the command itself is mirrored from
+                // the data sheet (13.1.5 SetRxDutyCycle: opcode 0x94, rxPeriod and sleepPeriod as
+                // 24-bit big-endian numbers of 15.625 us steps), as the reference driver encodes it
+                cell.borrow_mut().log.push(vec![0x94, (a >> 16) as u8, (a >> 8) as u8, *a as u8, (b >> 16) as u8, (b >> 8) as u8, *b as u8]);
+            } else {
+                chk(ctx.set_rx_with_timeout_in_rtc_step(rtc));
+            }
         }
         Op::Tx => chk(ctx.set_tx(0)),
         Op::Cad(sf) => {
